@@ -497,6 +497,9 @@ theorem exec_lens {a : Arch} {n : Nat} {op : String} {body : Bits} {s s' : VmSta
   by_cases h4 : op ∈ ["add", "mult", "div", "cpy", "and", "or", "xor", "nand", "nor", "xnor", "not", "mod"]
   · rw [if_pos h4] at h; branch h
   rw [if_neg h4] at h
+  by_cases h4b : op ∈ Isa.pipeOps
+  · rw [if_pos h4b] at h; branch h
+  rw [if_neg h4b] at h
   by_cases h5 : op = "j"
   · rw [if_pos h5] at h; branch h
   rw [if_neg h5] at h
@@ -639,6 +642,9 @@ theorem exec_frame {a : Arch} {n : Nat} {op : String} {body : Bits} {s s' : VmSt
   by_cases h4 : op ∈ ["add", "mult", "div", "cpy", "and", "or", "xor", "nand", "nor", "xnor", "not", "mod"]
   · rw [if_pos h4] at h; framebranch h
   rw [if_neg h4] at h
+  by_cases h4b : op ∈ Isa.pipeOps
+  · rw [if_pos h4b] at h; framebranch h
+  rw [if_neg h4b] at h
   by_cases h5 : op = "j"
   · rw [if_pos h5] at h; framebranch h
   rw [if_neg h5] at h
